@@ -53,3 +53,8 @@ example : ∃ t, runLabels init [.enqueue 1, .start, .enqueue 2, .wake, .swap, .
     t.executed = [1, 2] ∧ t.token = true := by decide
 
 end GN.Props.C04
+
+/-! ## Progress clauses
+
+Proved in `GN/EventLoop/Progress.lean` (audited with this property): progress: while the loop is running (canRun, not exiting) an accepted function is executed by steps of the loop thread alone - plus, when the submitter still owes its wake-up, that one wake; no further submission is needed.
+Theorems: `GN.EventLoop.Progress.accepted_function_is_executed_by_loop_alone`, `GN.EventLoop.Progress.loop_enabled_for_pending_function`, `GN.EventLoop.Progress.loop_step_enabled_for_pending_function`. -/
